@@ -138,8 +138,9 @@ inductive FloatVal where
   | int (v : Int)
   /-- NR2 / NR3: text accepted by Rust's `f64::from_str`, correctly rounded by it. -/
   | dec (text : Bytes)
-  /-- binary form as the code computes it: `± (mant * scale) * base.powi(exp)`. -/
-  | bin (neg : Bool) (mant scale base : Nat) (exp : Int)
+  /-- binary form: `± n * 2^e`, rounded once to binary64 by `SnmpReal::ldexp` (the rounding itself
+  is outside Lean: it is compared with exact rational arithmetic on every run). -/
+  | bin (neg : Bool) (n : Nat) (e : Int)
   deriving Repr, DecidableEq
 
 def isDigit (b : UInt8) : Bool := 48 ≤ b.toNat && b.toNat ≤ 57
@@ -186,8 +187,54 @@ def isRustFloat (s : Bytes) : Bool :=
           !ds.isEmpty && ds.all isDigit
         else false
 
-/-- `SnmpReal::parse_u32`: `(v << 8) | n` in `u32`. -/
-def parseU32 (bs : Bytes) : Nat := bs.foldl (fun acc b => (acc * 256 + b.toNat) % 2 ^ 32) 0
+/-- `SnmpReal::parse_exponent`: two's complement, clamped to `±2^40` (far outside the f64 range)
+as soon as the accumulator leaves that interval. -/
+def parseExponentLoop : Bytes → Int → Int
+  | [], v => v
+  | b :: rest, v =>
+    let v' := v * 256 + b.toNat
+    if v' > 2 ^ 40 ∨ v' < -(2 ^ 40) then (if v' > 0 then 2 ^ 40 else -(2 ^ 40))
+    else parseExponentLoop rest v'
+
+def parseExponent (bs : Bytes) : Int :=
+  match bs with
+  | [] => 0
+  | b :: _ => parseExponentLoop bs (if b.toNat ≥ 128 then -1 else 0)
+
+/-- `SnmpReal::parse_mantissa`: `(n, shift, sticky)` with `N = n * 2^shift` up to the dropped
+low-order bits, whose presence is recorded in `sticky`. -/
+def parseMantissaLoop : Bytes → Nat → Int → Bool → Nat × Int × Bool
+  | [], v, shift, sticky => (v, shift, sticky)
+  | b :: rest, v, shift, sticky =>
+    if v / 2 ^ 56 = 0 then parseMantissaLoop rest (v * 256 + b.toNat) shift sticky
+    else parseMantissaLoop rest v (shift + 8) (sticky || b.toNat ≠ 0)
+
+def parseMantissa (bs : Bytes) : Nat × Int :=
+  let (v, shift, sticky) := parseMantissaLoop bs 0 0 false
+  (if sticky then (if v % 2 = 0 then v + 1 else v) else v, shift)
+
+/-- where the exponent octets are (X.690 8.5.7.4): `(start, length)` -/
+def realExpLayout (i : Bytes) (f : Nat) : Outcome (Nat × Nat) :=
+  if f % 4 = 3 then
+    (if i.length < 2 then .err .InvalidData else do
+      let l ← idx i 1
+      pure (2, l.toNat))
+  else .ok (1, f % 4 + 1)
+
+/-- the binary branch of `SnmpReal::decode` (X.690 8.5.7, after the D8b repair) -/
+def decodeRealBinary (i : Bytes) (f : Nat) : Outcome FloatVal := do
+  let lay ← realExpLayout i f
+  let mStart := lay.1 + lay.2
+  if lay.2 = 0 ∨ i.length < mStart then .err .InvalidData else do
+  let eb ← slice i lay.1 mStart
+  let mb ← sliceFrom i mStart
+  let nm := parseMantissa mb
+  match (f / 16) % 4 with
+  | 3 => .err .InvalidData
+  | b =>
+    let k : Int := if b = 0 then 1 else if b = 1 then 3 else 4
+    let scale : Int := ((f / 4) % 4 : Nat)
+    .ok (.bin ((f / 64) % 2 = 1) nm.1 (parseExponent eb * k + scale + nm.2))
 
 /-- `SnmpReal::decode` (after the content-bounding repair). -/
 def decodeReal (i0 : Bytes) (h : Header) : Outcome FloatVal :=
@@ -196,22 +243,7 @@ def decodeReal (i0 : Bytes) (h : Header) : Outcome FloatVal :=
   let fb ← idx i 0
   let f := fb.toNat
   if f ≥ 128 then
-    -- binary encoding
-    let ln := f % 4 + 2
-    if i.length < ln then .err .InvalidData else do
-    let eb ← slice i 1 ln
-    let eu := parseU32 eb
-    let e : Int := if eu < 2 ^ 31 then eu else (eu : Int) - 2 ^ 32
-    let mb ← sliceFrom i ln
-    let mant := parseU32 mb
-    match (f / 4) % 4 with
-    | 0 => .err .InvalidData
-    | sc =>
-      match (f / 16) % 4 with
-      | 3 => .err .InvalidData
-      | b =>
-        let base := if b = 0 then 2 else if b = 1 then 8 else 16
-        .ok (.bin ((f / 64) % 2 = 1) mant (2 ^ sc) base e)
+    decodeRealBinary i f
   else if f < 64 then do
     let text ← sliceFrom i 1
     match f % 64 with
